@@ -212,6 +212,11 @@ func (doc *Document) AddNode(node Node) {
 	if !IsNil(node) {
 		doc.nodes = append(doc.nodes, node)
 		doc.addPointerToCache(node)
+
+		// The records changed: what the individuals remember about their
+		// families and spouses may not hold any more (a reference that did
+		// not resolve may resolve to this record now).
+		doc.familyLinksVersion++
 	}
 }
 
